@@ -407,6 +407,7 @@ class C18(Prop):
             # characters with the high bit set (negative chars) are not alphabetic: eslEINVAL from the three routines that validate, generator untouched
             {"name": "highbit-dp-markov", "ops": ["seed s=6", "cshuffledp s=c3a9 ip=0", "cmarkov0 s=41e9 ip=0", "cmarkov1 s=414243ff ip=1", "cshuffledp s=41428043 ip=1",
                                                   "cmarkov1 s=80 ip=0", "cmarkov0 s=ff41 ip=1", "peek"]},
+            {"name": "zero-roll-witness", "ops": ["seed s=12", "poke raw=0 n=620", "cmarkov1 s=%s ip=0" % hx(b"ZYZZYXZ"), "peek"]},
             {"name": "alphabet-constants", "ops": ["abcinfo abc=dna", "abcinfo abc=amino"]},
             {"name": "same-seed-inplace", "ops": ["seed s=99", "cshuffle s=%s ip=0" % hx(b"ACGTACGTAC"), "seed s=99", "cshuffle s=%s ip=1" % hx(b"ACGTACGTAC"), "peek"]},
         ]
@@ -576,6 +577,7 @@ class C18(Prop):
                    "sampledirty abc=amino p=none ret=1 L=%d" % (2 * L), "seed64 s=%d" % rng.randrange(1, 1 << 64)] + \
                   ["%sshuffle64 v=%s" % (t, v) for t in "dfil"] + ["peek64", "peek"]
             out.append({"name": "large-L%d" % L, "ops": ops, "sticky": 1})
+        out += self.zero_roll_cases(ctx)
         # the upper limit of the quantifier
         for L in ((5000,) if ctx.tier == "quick" else (4999, 5000)):
             K = rng.choice([2, 4, 20, 26])
@@ -588,6 +590,59 @@ class C18(Prop):
                    "xmarkov0 s=%s K=%d ip=1" % (hx(codes), K), "xmarkov1 s=%s K=%d ip=0" % (hx(codes), K), "peek"]
             out.append({"name": "limit-L%d" % L, "ops": ops, "sticky": 1})
         return out
+
+    def zero_roll_cases(self, ctx):
+        """round 6b: esl_random() == 0.0 exactly (raw word 0) at EVERY draw of one call - `poke raw=0 n=620` right after the seed op
+        fills the next 620 words of the fresh table - with leading zero-probability entries: the `<` of the DChoose/FChoose scan
+        (a `<=` would return index 0). One op per case; the exact expected output is computed by `zero_roll_expected`."""
+        rng = ctx.rng; out = []
+        nrep = 6 if ctx.tier == "quick" else 30
+        for rep in range(nrep):
+            for which in ("iid", "fiid", "xiid", "xfiid", "sampledirty", "cmarkov0", "xmarkov0", "cmarkov1", "xmarkov1"):
+                L = rng.choice([1, 2, 3, 4, 7, rng.randrange(3, 60), rng.randrange(60, 600)])
+                if which in ("iid", "fiid", "xiid", "xfiid", "sampledirty"):
+                    single = which in ("fiid", "xfiid")
+                    K = 18 if which == "sampledirty" else rng.choice([2, 3, 4, 20, 26])
+                    nz = rng.randrange(1, K)                        # leading zeros (sometimes -0.0), first positive entry at nz
+                    p = [rng.choice([0.0, 0.0, -0.0]) for _ in range(nz)] + [rng.random() + 1e-3] + [rng.choice([0.0, rng.random()]) for _ in range(K - nz - 1)]
+                    t = sum(p); p = [x / t for x in p]
+                    if single: p = [f32(x) for x in p]
+                    ps = ",".join((fbits if single else dbits)(x) for x in p)
+                    if which == "sampledirty": op = "sampledirty abc=dna p=%s L=%d" % (ps, L)
+                    elif which[0] == "x": op = "%s p=%s L=%d" % (which, ps, L)
+                    else:
+                        letters = list(UP); rng.shuffle(letters)
+                        op = "%s abc=%s p=%s L=%d" % (which, hx(letters[:K]), ps, L)
+                else:
+                    K = rng.choice([4, 20, 26])
+                    lo = rng.randrange(1, K)                        # only residues lo..K-1 occur: lo leading zero counts
+                    codes = [rng.randrange(lo, K) for _ in range(L)]
+                    if which[0] == "c": op = "%s s=%s ip=%d" % (which, hx(bytes(UP[c] if rng.random() < 0.7 else UP[c] + 32 for c in codes)), rng.randrange(2))
+                    else: op = "%s s=%s K=%d ip=%d" % (which, hx(codes), K + rng.choice([0, 0, 3]), rng.randrange(2))
+                out.append({"name": "zero-roll-%s-%d" % (which, rep), "ops": ["seed s=%d" % rng.randrange(1, 1 << 32), "poke raw=0 n=620", op, "peek"], "sticky": 2})
+        return out
+
+    def zero_roll_expected(self, op):
+        """the output of one IID / Markov call when every esl_random() is 0.0: DChoose returns the first entry with a positive running sum"""
+        w = op.split()[0]; a = kv(op)
+        if w in ("iid", "fiid", "xiid", "xfiid", "sampledirty"):
+            L = int(a["L"])
+            if w in ("fiid", "xfiid"): p = [struct.unpack("<f", struct.pack("<I", int(t, 16)))[0] for t in a["p"].split(",")]
+            else: p = [struct.unpack("<d", struct.pack("<Q", int(t, 16)))[0] for t in a["p"].split(",")]
+            k = next(i for i, x in enumerate(p) if x > 0.0)
+            if w in ("iid", "fiid"): return "ok " + hx(bytes([unhx(a["abc"])[k]]) * L)
+            return "ok " + hx(b"\xff" + bytes([k]) * L + b"\xff")
+        s = unhx(a["s"]); text = w[0] == "c"
+        codes = [(c & 0xdf) - 65 for c in s] if text else list(s)
+        L = len(codes)
+        enc = (lambda o: "ok " + hx(bytes(65 + c for c in o))) if text else (lambda o: "ok " + hx(b"\xff" + bytes(o) + b"\xff"))
+        if w.endswith("markov0"): return enc([min(codes)] * L)
+        if L <= 2: return "ok " + (hx(s) if text else hx(b"\xff" + bytes(s) + b"\xff"))
+        succ = {}
+        for x, y in list(zip(codes, codes[1:])) + [(codes[-1], codes[0])]: succ[x] = min(succ.get(x, y), y)
+        o = [min(codes)]
+        while len(o) < L: o.append(succ[o[-1]])
+        return enc(o)
 
     def canonical(self, line):
         if line.startswith(("fault", "fatal")): return "fault"
@@ -604,6 +659,10 @@ class C18(Prop):
     # ------------------------------------------------------------------ monitors: the property on the C output
     def monitor(self, ctx, case, out):
         ops = case["ops"]
+        if case.get("name", "").startswith("zero-roll") and len(out) >= 3 and not out[2].startswith(("fault", "atexit")):
+            exp = self.zero_roll_expected(ops[2])
+            if out[2] != exp:
+                return Failure("monitor", "every esl_random() forced to 0.0: the chooser must return the first entry of non-zero probability at every draw; expected %s, got %s [op %s]" % (exp[:80], out[2][:80], ops[2][:160]))
         last_by_call = {}
         cur_seed = None
         for idx, (op, l) in enumerate(zip(ops, out)):
